@@ -122,25 +122,39 @@ def inline_aliases(body, params, keep=()):
     for n in walk_own(body):
         if isinstance(n, ast.Name) and isinstance(n.ctx, (ast.Store, ast.Del)) and id(n) in order:
             store_pos.setdefault(n.id, []).append(order[id(n)])
-    # in-place mutations of a container count as stores for expressions COMPUTED from it
+    # in-place mutations of a container count as stores for expressions COMPUTED from it; the mutated object is
+    # identified by its access path (`x`, `self._dict`), so that `self._dict[k] = v` does not taint `type(self)`
     mut_pos = {}
     for n in walk_own(body):
-        base = None
-        if isinstance(n, ast.Call) and isinstance(n.func, ast.Attribute) and isinstance(n.func.value, ast.Name) \
+        if isinstance(n, ast.Call) and isinstance(n.func, ast.Attribute) \
                 and n.func.attr in ("append", "extend", "add", "update", "insert", "pop", "remove", "setdefault", "clear", "discard"):
-            base = n.func.value.id
+            mut_pos.setdefault(norm(n.func.value), []).append(order.get(id(n), -1))
         elif isinstance(n, (ast.Assign, ast.AugAssign, ast.Delete)):
             for t in (n.targets if isinstance(n, (ast.Assign, ast.Delete)) else [n.target]):
-                b_ = t
-                while isinstance(b_, (ast.Subscript, ast.Attribute)):
-                    b_ = b_.value
-                if isinstance(b_, ast.Name) and b_ is not t and isinstance(t, ast.Subscript):
-                    mut_pos.setdefault(b_.id, []).append(order.get(id(n), -1))
-        if base is not None:
-            mut_pos.setdefault(base, []).append(order.get(id(n), -1))
+                if isinstance(t, ast.Subscript):
+                    mut_pos.setdefault(norm(t.value), []).append(order.get(id(n), -1))
+
+    # re-binding of an access path (`obj.attr = ...`, `d[k] = ...`) invalidates every alias that reads that path
+    path_store_pos = {}
+    for n in walk_own(body):
+        if isinstance(n, (ast.Assign, ast.AugAssign, ast.AnnAssign, ast.Delete)):
+            tgts = n.targets if isinstance(n, (ast.Assign, ast.Delete)) else [n.target]
+            for t in tgts:
+                if isinstance(t, (ast.Attribute, ast.Subscript)):
+                    path_store_pos.setdefault(norm(t), []).append(order.get(id(n), -1))
+
+    last_use = {}
+    for n in walk_own(body):
+        if isinstance(n, ast.Name) and isinstance(n.ctx, ast.Load) and id(n) in order:
+            last_use[n.id] = max(last_use.get(n.id, -1), order[id(n)])
 
     def rhs_stable(st, val):
         here = max((order.get(id(x), -1) for x in ast.walk(st) if isinstance(x, (ast.stmt, ast.expr))), default=-1)
+        tgt_ = st.targets[0] if isinstance(st, ast.Assign) else st.target
+        until = last_use.get(tgt_.id, 10 ** 9) if isinstance(tgt_, ast.Name) else 10 ** 9
+        return _rhs_stable(val, here, until)
+
+    def _rhs_stable(val, here, until):
         inner_bound = set()
         for x in ast.walk(val):
             if isinstance(x, ast.Lambda):
@@ -149,10 +163,17 @@ def inline_aliases(body, params, keep=()):
                 inner_bound |= {y.id for y in ast.walk(x.target) if isinstance(y, ast.Name)}
         for x in ast.walk(val):
             if isinstance(x, ast.Name) and isinstance(x.ctx, ast.Load) and x.id not in inner_bound:
-                if any(pos > here for pos in store_pos.get(x.id, [])):
+                if any(here < pos <= until for pos in store_pos.get(x.id, [])):
                     return False
-                if not _is_ref_chain(val) and any(pos > here for pos in mut_pos.get(x.id, [])):
+        for x in ast.walk(val):
+            if isinstance(x, (ast.Attribute, ast.Subscript)) and isinstance(getattr(x, "ctx", None), ast.Load):
+                if any(here < pos <= until for pos in path_store_pos.get(norm(x), [])):
                     return False
+        if not _is_ref_chain(val):
+            for x in ast.walk(val):
+                if isinstance(x, (ast.Name, ast.Attribute, ast.Subscript)) and isinstance(getattr(x, "ctx", None), ast.Load):
+                    if any(here < pos <= until for pos in mut_pos.get(norm(x), [])):
+                        return False
         return True
 
     def loads_within(name, loop):
@@ -297,6 +318,15 @@ def _last_simple(stmts):
 
 
 _inline_counter = [0]
+_suffix_seen = {}
+
+
+def _suffix(func, h):
+    """Suffix for the locals of helper `h` inlined into `func`: distinct for every inlining."""
+    key = (id(func), h.name)
+    k = _suffix_seen.get(key, 0) + 1
+    _suffix_seen[key] = k
+    return f"__{h.name}" if k == 1 else f"__{h.name}_{k}"
 
 
 def _hoistable_calls(st):
@@ -353,7 +383,7 @@ def inline_procedures(body, func, prog, depth=0):
                 multi = len(hb) > 1 and not any(isinstance(x, (ast.Yield, ast.YieldFrom)) for x in walk_own(hb))
                 if multi and always_exits(hb):
                     _inline_counter[0] += 1
-                    new = _subst_body(hb, mapping, suffix=f"__{h.name}")
+                    new = _subst_body(hb, mapping, suffix=_suffix(func, h))
                     out.extend(inline_procedures(new, func, prog, depth + 1))
                     done = True
         if done:
@@ -367,7 +397,7 @@ def inline_procedures(body, func, prog, depth=0):
                 if not returns_value and not gen:
                     hb2 = _dereturn(copy.deepcopy(hb))
                     if hb2 is not None:
-                        new = _subst_body(hb2, mapping, suffix=f"__{h.name}")
+                        new = _subst_body(hb2, mapping, suffix=_suffix(func, h))
                         out.extend(inline_procedures(new, func, prog, depth + 1))
                         done = True
         rounds = 0
@@ -398,7 +428,7 @@ def inline_procedures(body, func, prog, depth=0):
                     continue
                 # arguments must be pure references (evaluated earlier than in the original)
                 _inline_counter[0] += 1
-                new = _subst_body(hb[:-1] + [ast.Expr(value=hb[-1].value)], mapping, suffix=f"__{h.name}")
+                new = _subst_body(hb[:-1] + [ast.Expr(value=hb[-1].value)], mapping, suffix=_suffix(func, h))
                 ret = new[-1].value
                 pre = inline_procedures(new[:-1], func, prog, depth + 1)
                 out.extend(pre)
@@ -646,6 +676,24 @@ def _as_expression(stmts):
     return None
 
 
+def text_resolver(body, keep=()):
+    """R(expr) -> normalised text of expr with single-assignment locals of `body` read as what they stand for
+    (for comparing texts only: the substitution ignores evaluation order)."""
+    env = {}
+    for st in walk_own(body):
+        if isinstance(st, (ast.Assign, ast.AnnAssign)) and st.value is not None:
+            tg = st.targets[0] if isinstance(st, ast.Assign) and len(st.targets) == 1 else getattr(st, "target", None)
+            if isinstance(tg, ast.Name):
+                env[tg.id] = st.value if tg.id not in env else None
+    env = {k: v for k, v in env.items() if v is not None and k not in keep}
+
+    def R(e):
+        for _ in range(3):
+            e = _subst_expr(e, env)
+        return norm(e)
+    return R
+
+
 _nbody_cache = {}
 
 
@@ -659,6 +707,8 @@ def nbody(func, prog=None, keep=()):
     body = [st for st in func.body if not (isinstance(st, ast.Expr) and isinstance(st.value, ast.Constant)
                                            and isinstance(st.value.value, str))]
     body = copy.deepcopy(body)
+    for k_ in [k_ for k_ in _suffix_seen if k_[0] == id(func)]:
+        del _suffix_seen[k_]
     if prog is not None:
         body = inline_procedures(body, func, prog)
         body = inline_single_returns(body, func, prog)
@@ -705,9 +755,15 @@ class Builder:
         self.returned = returned
 
     def guard_texts(self):
+        """Sorted texts of the atomic guards, comparisons in normal form (negation pushed into the operator)."""
+        from .paths import cmp_atom
         out = []
         for t, pol in self.guards:
             for t2, p2 in flatten_guard(t, pol):
+                c = cmp_atom(t2, p2)
+                if c is not None:
+                    out.append(f"{c[0]} {c[1]} {c[2]}")
+                    continue
                 t3, p3 = strip_not(t2, p2)
                 out.append(("" if p3 else "not ") + norm(t3))
         return sorted(out)
